@@ -42,7 +42,7 @@ def parse(t: T, cond=()) -> Tuple[T, List[Stage]]:
             for c in conds:
                 stages.append(Stage("filter", T("comp-pred", (elemvar, c)), tuple(cond)))
         else:
-            stages.append(Stage("comp", t, tuple(cond)))
+            stages.append(Stage("genexp" if t.a[0] == "gen" else "comp", t, tuple(cond)))
         return base, stages
     if t.op == "ite":
         c, a, b = t.a
